@@ -48,6 +48,9 @@ def gen_programs(rng, nclients, big_ok=True, kinds=None, nshared=None):
         initial["d/g"] = "init-g"
     programs = []
     nonce = 0
+    # one program in four writes contents of ONE length only (and everything happens within a second or two):
+    # size and mtime then say nothing about which version a file holds
+    one_size = rng.pick([20, 1024, 8192]) if rng.chance(1, 4) else None
     kinds = kinds or ["Put"] * 10 + ["Delete"] * 3 + ["Get"] * 4 + ["List"] * 3
     for c in range(nclients):
         prog = []
@@ -59,9 +62,11 @@ def gen_programs(rng, nclients, big_ok=True, kinds=None, nshared=None):
             if kind == "Put":
                 nonce += 1
                 size = rng.pick(SIZES if big_ok else SIZES[:4])
-                head = b"%d:%d:%x|" % (c, k, nonce)
+                if one_size:
+                    size = one_size
+                head = b"%d:%d:%04x|" % (c, k, nonce)
                 data = (head * (size // len(head) + 1))[:max(size, len(head))]
-                zk = rng.below(8)
+                zk = rng.below(8) if not one_size else 99
                 if zk == 0:
                     data = head + bytes(max(size, 8192) - len(head))          # unique head, all zeros after it
                 elif zk == 1:
@@ -109,6 +114,52 @@ def two_op_programs():
     P["delete-get"] = ([[Op(0, "Delete", "f", expected="init"), Op(0, "Bye")], [Op(1, "Get", "f"), Op(1, "Bye")]], {"f": "init-f"})
     P["put-list"] = ([[Op(0, "Put", "f", expected="init", content="sa"), Op(0, "Bye")], [Op(1, "List"), Op(1, "Bye")]], {"f": "init-f"})
     return P, contents
+
+
+def bystander_programs(rng):
+    """2-3 writers that all name the initial hash of one path, plus 1-2 clients that only connect and leave (or
+    look once): what a server does when its session ends is interleaved with the others' commit sections."""
+    contents = {"init-f": b"initial content of f"}
+    programs = []
+    shape = rng.pick([0, 1, 2, 2])
+    if shape == 1:
+        # a chain: A commits, B looks and replaces it (same length, same second), A comes back on its still-open
+        # connection with what it last saw - whatever A's server remembers about `f` is stale by then
+        fill = rng.pick([b"", b"." * 3000])
+        for key in ("v1", "v2", "v3"):
+            contents[key] = b"%s-%s|" % (key.encode(), rng.bytes(4).hex().encode()) + fill
+        a = [Op(0, "Put", "f", expected="init", content="v1", opno=0), Op(0, rng.pick(["Put", "Put", "Delete", "Get"]), "f", expected="seen", content="v3", opno=1)]
+        if rng.chance(1, 2):
+            a.append(Op(0, "Get", "f", opno=2))
+        b = [Op(1, "Get", "f", opno=0), Op(1, "Put", "f", expected="seen", content="v2", opno=1)]
+        if rng.chance(1, 2):
+            b.insert(0, Op(1, "Get", "f", opno=5))
+        programs = [a + [Op(0, "Bye", opno=99)], b + [Op(1, "Bye", opno=99)]]
+        if rng.chance(1, 3):
+            programs.append([Op(2, "Bye", opno=99)])
+        return programs, contents, {"f": "init-f"}
+    nw = rng.pick([2, 2, 3]) if shape == 0 else 3
+    nb = rng.pick([1, 1, 2]) if shape == 0 else rng.pick([0, 0, 1])
+    roles = rng.shuffle(["w"] * nw + ["b"] * nb)
+    other_done = False
+    for c, role in enumerate(roles):
+        if role == "w":
+            key = "w%d" % c
+            contents[key] = (b"writer-%d-%s|" % (c, rng.bytes(4).hex().encode())) * rng.pick([2, 2, 400])
+            if shape == 2 and not other_done:
+                # one writer commits to ANOTHER path: it passes through the commit section without changing what
+                # the other writers' expected hashes refer to
+                other_done = True
+                prog = [Op(c, "Put", "g", expected="none", content=key, opno=0, pieces=rng.range(1, 3))]
+            else:
+                prog = [Op(c, rng.pick(["Put", "Put", "Put", "Delete"]), "f", expected="init", content=key, opno=0, pieces=rng.range(1, 3))]
+            if rng.chance(1, 3):
+                prog.append(Op(c, "Get", "f", opno=1))
+        else:
+            prog = [Op(c, "Get", "f", opno=0)] if rng.chance(1, 3) else []
+        prog.append(Op(c, "Bye", opno=99))
+        programs.append(prog)
+    return programs, contents, {"f": "init-f"}
 
 
 def clone_programs(programs):
@@ -409,6 +460,11 @@ def _c03_worker(args):
             strat = Bounded(first, a, b)
             n = 2
             label = {"program": pname, "bounded": [first, a, b]}
+        elif mode == "bystander":
+            programs, contents, initial = bystander_programs(rng)
+            n = len(programs)
+            strat = RandomWalk(rng) if rng.chance(2, 3) else PCT(rng, 2 * n, d=rng.range(1, 3), horizon=rng.pick([40, 120]))
+            label = {"generator": mode, "index": idx, "clients": n}
         else:
             n = rng.pick([2, 2, 3, 3, 4])
             programs, contents, initial = gen_programs(rng, n, big_ok=rng.chance(1, 2))
@@ -533,6 +589,10 @@ def c03(tier):
     per = max(1, nrw // (NCPU * 2))
     for lo in range(0, nrw, per):
         jobs.append((seed(), lo, min(nrw, lo + per), wroot, "random"))
+    nby = 8000 if th else 640
+    per = max(1, nby // (NCPU * 2))
+    for lo in range(0, nby, per):
+        jobs.append((seed(), lo, min(nby, lo + per), wroot, "bystander"))
     fold(r, run_jobs(_c03_worker, jobs))
     rmtree(wroot)
     r.extra["enumerated_schedules"] = enum_total
